@@ -29,6 +29,11 @@ pub const FAMILIES: &[(&str, &[&str])] = &[
                "<link charset=utf-8>", "<base charset=x>", "<bgsound http-equiv=content-type content=\"charset=y\">", "<basefont charset=z>"]),
     ("forms", &["<input>", "<button>", "<select>", "<textarea>", "</textarea>", "<img>", "<fieldset>", "<object>", "<output>", "<label>", "<form>", "</form>",
                 "<div>", "</div>", "<table>", "<td>", "x", "<keygen>", "</select>", "</button>", "<template>", "</template>", "<input form=f>", "<b>", "</b>", "<p>"]),
+    ("aaa", &["<a>", "<b>", "<p>", "<div>", "</a>", "</b>", "</p>", "x", "<table>", "<td>", "<nobr>", "<button>", "</div>", "<i>", "</i>", "<li>",
+              "<svg>", "<mi>", "<applet>", "<template>", "</table>", "<search>", "<span>", "</span>", "<math>", "<desc>", "<annotation-xml>", "</nobr>"]),
+    ("ark", &["<b>", "<p>", "</p>", "x", "<b id=q>", "</b>", "<div>", "<b id=q class=r>", "<b class=r id=q>", "<i>", "<td>", "<table>"]),
+    ("lf", &["<pre>", "<textarea>", "<listing>", "\n", "&#10", "&#10;", "x", "\r", "\r\n", "<b>", "\0", "</pre>", "<!DOCTYPE html>", "<!--c-->", "</textarea>",
+             "<table>", "<svg>", "<pre a=1 a=2>", " "]),
     ("misc", &["<!DOCTYPE html>", "<!DOCTYPE x>", "<!-- c -->", "<?pi?>", "</>", "<a b=c b=d>", "<div id=1 id=2>", "\r\n", "\0", "&lt;", "<html>", "<body>",
                "<wbr>", "<area>", "<param>", "<source>", "<track>", "<embed>", "<img>", "<bgsound>", "x", "<nobr>", "<a>", "<table>", "<xmp>"]),
 ];
@@ -43,16 +48,36 @@ pub const CONTEXTS: &[(&str, &str)] = &[
 
 pub fn base_case(text: &str) -> Value {
     json!({"mode":"doc","ctx":{"ns":"html","local":cps("div"),"attrs":[]},"scripting":true,"srcdoc":false,"drop_doctype":false,
-           "iquirks":"no","exact":false,"bom":true,"tb_exact":false,"chunks":[cps(text)],"gc":false,"quiet":true,"tokens":true,"dump":true})
+           "iquirks":"no","exact":false,"bom":true,"tb_exact":false,"form_owner":false,"chunks":[cps(text)],"gc":false,"quiet":true,"tokens":true,"dump":true})
 }
 
 pub fn emit_case(c: &Value, id: u64, out: &mut Out) {
     if std::env::var("VH_NOTE").is_ok() {
         crate::tok::note_current(c);
     }
-    let po = run_parse(c);
+    let po = if c.get("toks").is_some() { run_tokens(c) } else { run_parse(c) };
     let mut cfg = c.clone();
+    if c.get("toks").is_some() {
+        cfg.as_object_mut().unwrap().remove("toks");
+        cfg["tokdriven"] = json!(true);
+    }
     cfg.as_object_mut().unwrap().remove("chunks");
+    if std::env::var("VH_C02").is_ok() {
+        // one line per case: the tokens the tree builder was given (with its replies) and the resulting tree
+        let mut toks = Vec::new();
+        for e in &po.events {
+            if e["ev"] == "token" {
+                toks.push(json!({"tok": e["tok"], "r": "none"}));
+            } else if e["ev"] == "reply" {
+                if let Some(l) = toks.last_mut() {
+                    l["r"] = e["r"].clone();
+                }
+            }
+        }
+        out.line(&json!({"ev":"case","case":id,"cfg":cfg,"chunks":c["chunks"],"toks":toks,"dom":po.tree_flags,"quirks":po.quirks,
+                         "istate":po.istate,"panic": match &po.panic { Some(m) => json!([cps(m)]), None => json!([]) }}));
+        return;
+    }
     out.line(&json!({"ev":"reset","case":id,"cfg":cfg,"chunks":c["chunks"]}));
     for mut e in po.events {
         e["case"] = json!(id);
@@ -92,12 +117,28 @@ pub fn main(args: &Args) {
     let loud = args.has("loud");
     let mut id = 0u64;
     let mut cr = Rng::new(args.num("seed", 1) ^ 0x77);
+    if args.has("c02") {
+        std::env::set_var("VH_C02", "1");
+    }
     if args.has("replay") {
         for c in read_cases() {
-            if c["ev"] == "reset" {
+            if c["ev"] == "reset" || c["ev"] == "case" {
                 let mut case = c["cfg"].clone();
                 case["chunks"] = c["chunks"].clone();
+                if c["cfg"]["tokdriven"] == true {
+                    case["toks"] = Value::Array(c["toks"].as_array().unwrap().iter().map(|x| x["tok"].clone()).collect());
+                }
                 id += 1;
+                emit_case(&case, id, &mut out);
+            } else if c.get("toks").is_some() {
+                // a token sequence exported by MC_TreeBuilder: fed to the tree builder directly
+                id += 1;
+                let mut case = base_case("");
+                for k in ["mode", "ctx", "scripting", "toks"] {
+                    case[k] = c[k].clone();
+                }
+                case["ctx"]["attrs"] = json!([]);
+                case["chunks"] = json!([]);
                 emit_case(&case, id, &mut out);
             } else if c.get("mode").is_some() {
                 id += 1;
@@ -143,6 +184,123 @@ pub fn main(args: &Args) {
                             x /= fam.len();
                         }
                         run(base_case(&s), &mut out, &mut cr);
+                    }
+                }
+            }
+        },
+        "tables" => {
+            // directed cases over the standard's tables (gen/c02_tables.json)
+            let path = args.get("tables").expect("--tables FILE");
+            let t: Value = serde_json::from_str(&std::fs::read_to_string(path).expect("tables file")).expect("tables json");
+            let list = |k: &str| -> Vec<String> { t[k].as_array().unwrap().iter().map(|x| x.as_str().unwrap().to_string()).collect() };
+            let mut inputs: Vec<String> = Vec::new();
+            let upper = |s: &str| s.to_ascii_uppercase();
+            for key in ["quirks_public_prefixes", "quirks_public_prefixes_if_no_system", "limited_public_prefixes", "quirks_public_exact"] {
+                for p in list(key) {
+                    for id in [p.clone(), format!("{}en", p), upper(&format!("{}EN", p)), format!("x{}", p)] {
+                        inputs.push(format!("<!DOCTYPE html PUBLIC \"{}\">", id));
+                        inputs.push(format!("<!DOCTYPE html PUBLIC \"{}\" \"s\">", id));
+                        inputs.push(format!("<!DOCTYPE html PUBLIC \"{}\" \"\">", id));
+                        inputs.push(format!("<!DOCTYPE htm PUBLIC \"{}\">", id));
+                        inputs.push(format!("<!DOCTYPE html SYSTEM \"{}\">", id));
+                    }
+                }
+            }
+            for sid in list("quirks_system_exact") {
+                for id in [sid.clone(), upper(&sid), format!("{}x", sid)] {
+                    inputs.push(format!("<!DOCTYPE html SYSTEM \"{}\">", id));
+                    inputs.push(format!("<!DOCTYPE html PUBLIC \"x\" \"{}\">", id));
+                    inputs.push(format!("<!DOCTYPE html PUBLIC \"{}\">", id));
+                }
+            }
+            for d in ["<!DOCTYPE html>", "<!DOCTYPE HTML>", "<!DOCTYPE>", "<!DOCTYPE html x>", "<!DOCTYPE html SYSTEM \"about:legacy-compat\">", "<!DOCTYPE html PUBLIC>",
+                      "<!DOCTYPE html PUBLIC \"\">", "<!DOCTYPE html SYSTEM \"\">", "<!DOCTYPE xhtml>", "<!DOCTYPE html", "<!DOCTYPE html PUBLIC \"html\"", "x<!DOCTYPE html>",
+                      " <!DOCTYPE html>", "<!--c--><!DOCTYPE html>", "<!DOCTYPE html><!DOCTYPE x>", "<p><!DOCTYPE html>", ""] {
+                inputs.push(d.to_string());
+            }
+            let ndoctype = inputs.len();
+            for tg in list("svg_tags") {
+                inputs.push(format!("<svg><{}>", tg));
+                inputs.push(format!("<svg><{}/>x", tg));
+                inputs.push(format!("<math><{}>", tg));
+                inputs.push(format!("<{}>", tg));
+                inputs.push(format!("<svg><{}></{}>x", tg, tg.to_ascii_lowercase()));
+            }
+            let mut attrs = list("svg_attrs");
+            attrs.extend(list("foreign_attrs"));
+            attrs.extend(["contentScriptType", "contentStyleType", "externalResourcesRequired", "filterRes", "definitionURL", "viewbox2"].iter().map(|x| x.to_string()));
+            for a in &attrs {
+                inputs.push(format!("<svg {}=1>", a));
+                inputs.push(format!("<math {}=1>", a));
+                inputs.push(format!("<svg><g {}=1>", a));
+                inputs.push(format!("<math><mi {}=1>", a));
+                inputs.push(format!("<div {}=1>", a));
+                inputs.push(format!("<svg><foreignObject><p {}=1>", a));
+            }
+            let mut specials = list("special_html");
+            specials.extend(["span", "dialog", "isindex", "option", "optgroup", "menuitem", "command", "rb", "rt", "font", "a", "ruby", "picture", "slot"].iter().map(|x| x.to_string()));
+            for x in &specials {
+                inputs.push(format!("<b><{}>y</b>z", x));
+                inputs.push(format!("<{}><span></{}>z", x, "q"));
+                inputs.push(format!("<div><{}><q></div>z", x));
+                inputs.push(format!("<li><{}><li>", x));
+                inputs.push(format!("<dd><{}><dt>", x));
+                inputs.push(format!("<p><{}>z", x));
+                inputs.push(format!("<p><button><{}></p>z", x));
+                inputs.push(format!("<table><{}>z", x));
+                inputs.push(format!("<svg><{}>z", x));
+                inputs.push(format!("<math><mi><{}>z", x));
+                inputs.push(format!("<math><annotation-xml><{}>z", x));
+                inputs.push(format!("</{}>z", x));
+                inputs.push(format!("<{}></{}>z", x, x));
+                inputs.push(format!("<select><{}>z", x));
+            }
+            for x in ["mi", "mo", "mn", "ms", "mtext", "annotation-xml", "math", "mrow"] {
+                inputs.push(format!("<b><math><{}><p>y</b>z", x));
+                inputs.push(format!("<p><math><{}></p>z", x));
+                inputs.push(format!("<math><{}><span></q>z", x));
+            }
+            for x in ["foreignObject", "desc", "title", "g", "svg"] {
+                inputs.push(format!("<b><svg><{}><p>y</b>z", x));
+                inputs.push(format!("<p><svg><{}></p>z", x));
+                inputs.push(format!("<svg><{}><span></q>z", x));
+            }
+            // loop limits: adoption agency outer loop (8), inner loop (3), Noah's ark (3), deep implied end tags
+            let fmts = ["<i>", "<em>", "<s>", "<u>", "<tt>", "<big>", "<small>", "<strong>", "<code>", "<font>", "<strike>", "<nobr>", "<a>"];
+            for n in 0..13usize {
+                for tail in ["</b>", "x</b>", "</b>y", "x</b>y", "</b><p>z", "</b></b>", "</i>", "<b>"] {
+                    inputs.push(format!("<b>{}{}", "<div>".repeat(n), tail));
+                    inputs.push(format!("<b id=1>{}{}", "<p><div>".repeat(n), tail));
+                    inputs.push(format!("<b>{}<div>x{}", fmts[..n].concat(), tail));
+                    inputs.push(format!("<b>{}<div>{}<p>x{}", fmts[..n].concat(), "<i>".repeat(n / 2), tail));
+                    inputs.push(format!("<table><b>{}{}", "<div>".repeat(n), tail));
+                    inputs.push(format!("<a>{}<a>", "<div>".repeat(n)));
+                }
+                inputs.push(format!("{}<p>x", "<b>".repeat(n)));
+                inputs.push(format!("{}<p>x", "<b class=c>".repeat(n)));
+                inputs.push(format!("{}{}<p>x", "<b a=1 b=2>".repeat(n), "<b b=2 a=1>".repeat(2)));
+                inputs.push(format!("{}<td>{}<p>x", "<b>".repeat(n), "<b>".repeat(n)));
+                inputs.push(format!("{}</p>{}<div>x", "<b><i>".repeat(n), "</b>".repeat(n / 2)));
+                inputs.push(format!("{}</ul>x", "<ul><li><p>".repeat(n)));
+                inputs.push(format!("<table>{}x</table>y", "<tr><td><table>".repeat(n)));
+                inputs.push(format!("{}x{}", "<template>".repeat(n), "</template>".repeat(n / 2)));
+            }
+            for (i, inp) in inputs.iter().enumerate() {
+                run(base_case(inp), &mut out, &mut cr);
+                if i < ndoctype {
+                    let mut c = base_case(inp);
+                    c["srcdoc"] = json!(true);
+                    run(c, &mut out, &mut cr);
+                    let mut c = base_case(inp);
+                    c["drop_doctype"] = json!(true);
+                    c["iquirks"] = json!("limited");
+                    run(c, &mut out, &mut cr);
+                } else {
+                    for (ns, local) in [("html", "div"), ("svg", "svg"), ("mathml", "math"), ("html", "table")] {
+                        let mut c = base_case(inp);
+                        c["mode"] = json!("frag");
+                        c["ctx"] = json!({"ns":ns,"local":cps(local),"attrs":[]});
+                        run(c, &mut out, &mut cr);
                     }
                 }
             }
@@ -199,6 +357,18 @@ pub fn main(args: &Args) {
                 c["scripting"] = json!(r.chance(2, 3));
                 if r.chance(1, 10) {
                     c["srcdoc"] = json!(true);
+                }
+                if args.has("c02") {
+                    if r.chance(1, 4) {
+                        c["iquirks"] = json!(*r.pick(&["full", "limited", "no"]));
+                    }
+                    if r.chance(1, 12) {
+                        c["drop_doctype"] = json!(true);
+                    }
+                    if c["mode"] == "frag" && r.chance(1, 6) {
+                        c["ctx"] = json!({"ns":"mathml","local":cps("annotation-xml"),
+                                          "attrs":[{"ns":"","local":cps("encoding"),"v":cps(*r.pick(&["text/html", "TEXT/HTML", "application/xhtml+xml", "text/xml"]))}]});
+                    }
                 }
                 run(c, &mut out, &mut cr);
             }
